@@ -369,6 +369,22 @@ impl<'a> Decoder<'a> {
                 Val::Bytes(b)
             }
             Ty::Boxed(inner) => self.decode(inner, cur)?,
+            Ty::Compressed => {
+                // frame = varint(uncompressed length) ++ varint(compressed length) ++ raw deflate.
+                // Raw deflate has no checksum and the stored uncompressed length is only a hint
+                // (leniency 10): the value is whatever the payload inflates to.
+                let _ulen = self.marked_var_u32(cur, Role::BytesLen)?;
+                let clen = self.marked_var_u32(cur, Role::BytesLen)?;
+                let off = cur.pos;
+                let payload = self.take(cur, clen as usize)?;
+                self.mark(off, clen as usize, Role::Payload, 0);
+                use std::io::Read;
+                let mut out = Vec::new();
+                match flate2::read::DeflateDecoder::new(payload).read_to_end(&mut out) {
+                    Ok(_) => Val::Bytes(out),
+                    Err(e) => return Err(Why::BadValue(format!("deflate: {e}"))),
+                }
+            }
             Ty::Uuid => {
                 let off = cur.pos;
                 let s = self.take(cur, 16)?;
